@@ -599,3 +599,88 @@ def run_reweighted(ctx, rep):
         if np.any(np.diff(lh) > 1e-9 * (1 + np.abs(lh[:-1]))):
             rep.violate("IterativeReweightedL1: the non-convex objective increases along the reweighting iterations",
                         dict(sig, kind="reweight-ascent"), input=dict(X=X.tolist(), y=y.tolist()), impl_output=lh.tolist())
+
+
+# ------------------------------------------------------------------ model correspondence (Level E)
+
+def est_tokens(case):
+    from ..proto import fb, b
+    kw = case.kwargs
+    n = case.name
+    if n == "Lasso":
+        return f"Lasso {fb(kw['alpha'])} {b(kw.get('positive', False))} {b(kw.get('fit_intercept', True))}"
+    if n == "WeightedLasso":
+        return (f"WeightedLasso {fb(kw['alpha'])} {b(kw.get('weights') is not None)} {b(kw.get('positive', False))} "
+                f"{b(kw.get('fit_intercept', True))}")
+    if n == "ElasticNet":
+        return (f"ElasticNet {fb(kw['alpha'])} {fb(kw.get('l1_ratio', 0.5))} {b(kw.get('positive', False))} "
+                f"{b(kw.get('fit_intercept', True))}")
+    if n == "MCPRegression":
+        return (f"MCPRegression {fb(kw['alpha'])} {fb(kw.get('gamma', 3))} {b(kw.get('weights') is not None)} "
+                f"{b(kw.get('positive', False))} {b(kw.get('fit_intercept', True))}")
+    if n == "SparseLogisticRegression":
+        return f"SparseLogisticRegression {fb(kw['alpha'])} {b(kw.get('fit_intercept', True))}"
+    if n == "LinearSVC":
+        return f"LinearSVC {fb(kw.get('C', 1.0))}"
+    return None
+
+
+def run_plumbing(ctx, rep):
+    """what each estimator hands to BaseSolver.solve (hook event) vs the Lean model `Est.datafit/penalty/fitInt`;
+    classifier conventions vs `predictBinary / probaBinary`; LinearSVC primal image vs `svcPrimal`"""
+    shim()
+    from skglm import _verif
+    from .. import lean
+    from ..proto import decode, close, fb, mat, vec
+    rng = ctx.rng
+    lines, expect, meta = [], [], []
+    for _ in range(ctx.n(60, 600)):
+        name = rng.choice(["Lasso", "WeightedLasso", "ElasticNet", "MCPRegression", "SparseLogisticRegression", "LinearSVC"])
+        case = gen_est(rng, name)
+        case.kwargs["max_iter"] = 3          # the plumbing does not depend on convergence
+        _verif.start()
+        est, err = fit_case(case)
+        tr = _verif.stop() or []
+        ev = [e for k, e in tr if k == "solve"]
+        rep.count(f"plumb:{name}", err is not None, ("pl", name, len(rep.nontrivial)))
+        if err or not ev:
+            continue
+        e = ev[-1]
+        pen, df, sol = e["penalty"], e["datafit"], e["solver"]
+        second = pen.get("l1_ratio", pen.get("gamma", float("nan")))
+        got = [df["class"], pen["class"], float(pen.get("alpha", float("nan"))), float(second),
+               "T" if pen.get("positive", False) else "F", "T" if sol.get("fit_intercept", False) else "F",
+               "T" if "weights" in pen else "F"]
+        lines.append("plumb " + est_tokens(case))
+        expect.append(got)
+        meta.append(case)
+        if "weights" in pen and case.kwargs.get("weights") is not None and \
+                not np.array_equal(np.asarray(pen["weights"], float), np.asarray(case.kwargs["weights"], float)):
+            rep.violate(f"{name}: the penalty handed to the solver does not carry the user's weights",
+                        dict(case.signature(site=f"{name}.fit"), kind="weights-plumbing"), case=case.describe(),
+                        impl_output=np.asarray(pen["weights"]).tolist())
+        if name == "SparseLogisticRegression" and len(est.classes_) == 2:
+            d = est.decision_function(case.X)
+            pr = est.predict_proba(case.X)
+            pd = est.predict(case.X)
+            for i in range(min(4, len(d))):
+                lines.append(f"clf {fb(d[i])}")
+                expect.append(["T" if pd[i] == est.classes_[1] else "F", float(pr[i, 0]), float(pr[i, 1])])
+                meta.append(case)
+        if name == "LinearSVC" and len(est.classes_) == 2:
+            ypm = np.where(np.asarray(case.y) == est.classes_[1], 1.0, -1.0)
+            n, p = case.X.shape
+            lines.append(f"svc_primal {n} {p} {mat(case.X)} {vec(ypm)[len(str(n))+1:]} {vec(est.dual_coef_[0])[len(str(n))+1:]}")
+            expect.append([float(t) for t in np.asarray(est.coef_)[0]])
+            meta.append(case)
+    outs = lean.drive(lines)
+    for line, out, got, case in zip(lines, outs, expect, meta):
+        m = decode(out)
+        m = m[:len(got)]
+        ok = len(m) == len(got) and all((a == b_) if isinstance(a, str) or isinstance(b_, str) else
+                                        ((a != a and b_ != b_) or close(a, b_, 1e-9, 1e-12)) for a, b_ in zip(got, m))
+        if not ok:
+            rep.disagree("E:" + line.split()[0], line[:200], got[:10], m[:10],
+                         dict(case.signature(site=f"{case.name}.fit")), case=case.describe())
+    if lines:
+        rep.sample(dict(line=lines[0], impl=expect[0], model=decode(outs[0])))
